@@ -8,6 +8,150 @@ use proptest::prelude::*;
 
 pub struct C01;
 
+/// Long-haul shape: one connection carries more than 2^20 packets, so that the 20-bit packet ids come round once,
+/// and network duplicates of frames from an early phase (sent while acknowledgements were lost, hence including
+/// sync frames that name ids) arrive only afterwards - at a moment at which the ids they carry are current again.
+#[derive(Clone, Debug, serde::Serialize, serde::Deserialize)]
+pub struct LongHaul {
+    pub seed: u64,
+    pub pkt_base: u32,
+    pub frm_base: u32,
+    pub latency_us: u32,
+    /// how long acknowledgements are lost early on (the frames of that phase are the ones duplicated), ms
+    pub hold_ms: u16,
+    /// the late duplicates carry packets this far ahead of the receiver's window base at the time they arrive
+    pub delta: u16,
+    /// percentage of Reliable packets (the rest is Unreliable), channels used
+    pub reliable_pct: u8,
+    pub channels: u8,
+}
+
+#[derive(Clone, Debug, serde::Serialize, serde::Deserialize)]
+#[serde(untagged)]
+pub enum Case {
+    Pair(PairScenario),
+    LongHaul { long_haul: LongHaul },
+}
+
+fn run_long_haul(c: &LongHaul) -> CaseResult {
+    use uflow::verif::Serialize as _;
+    let mut classes: Vec<&'static str> = vec!["long_haul"];
+    let dir = DirCfg { pkt_win_log2: 12, frm_win_log2: 12, pkt_base: c.pkt_base & PKT_MASK, frm_base: c.frm_base, alloc_limit: 4_000_000, bw_limit: 400_000_000 };
+    let sc = PairScenario {
+        dirs: [dir.clone(), dir],
+        keepalive_ms: None,
+        seed: c.seed,
+        zero_ch: 0,
+        zero_mode: 1,
+        links: [LinkCfg { latency_us: c.latency_us.min(20_000), fates: vec![] }, LinkCfg { latency_us: c.latency_us.min(20_000), fates: vec![] }],
+        ticks: vec![],
+        tail: None,
+    };
+    let mut sim = SimPair::new(&sc);
+    sim.record_stats = false;
+    let channels = c.channels.clamp(1, 8);
+    let mut submitted: u32 = 0;
+    // (phase B uses Unreliable packets only: retransmissions would keep the sender from ever being silent)
+    let phase_b = std::cell::Cell::new(false);
+    let mut tick = |sim: &mut SimPair, dt_us: u64, count: u32, submitted: &mut u32| {
+        let mut sends = Vec::with_capacity(count as usize);
+        for _ in 0..count {
+            let i = *submitted;
+            let mode = if !phase_b.get() && (i.wrapping_mul(2654435761) >> 8) % 100 < c.reliable_pct as u32 { 3 } else { 1 };
+            sends.push(SendSpec { ch: (i % channels as u32) as u8, mode, size: 8 });
+            *submitted += 1;
+        }
+        let t = Tick { dt_us, acts: [EpAct { step: true, sends, flushes: 1 }, EpAct { step: true, sends: vec![], flushes: 1 }] };
+        sim.run_tick(&t);
+    };
+    // A: warm-up
+    for _ in 0..60 {
+        tick(&mut sim, 5_000, 20, &mut submitted);
+    }
+    // let everything sent so far be delivered and acknowledged (Reliable packets of the warm-up included)
+    for _ in 0..200 {
+        tick(&mut sim, 5_000, 0, &mut submitted);
+    }
+    phase_b.set(true);
+    // B: acknowledgements are lost for a while; copies of everything the sender emits meanwhile are held back
+    let hold_us = c.hold_ms.clamp(2_200, 6_000) as u64 * 1000;
+    let b_first_wire = sim.trace.wire[0].len();
+    sim.stash_until_us[0] = sim.now_us + hold_us + 300_000;
+    sim.blackout[1] = (sim.now_us + hold_us, 2);
+    // a burst, then silence: with nothing acknowledged and nothing new to send, the sender emits sync frames that name
+    // its next frame and packet ids; when acknowledgements flow again it sends some more (all of it held back as well)
+    let b_quiet_end = sim.now_us + hold_us;
+    let b_end = b_quiet_end + 300_000;
+    tick(&mut sim, 20_000, 30, &mut submitted);
+    while sim.now_us < b_quiet_end {
+        tick(&mut sim, 20_000, 0, &mut submitted);
+    }
+    while sim.now_us < b_end {
+        tick(&mut sim, 20_000, 3, &mut submitted);
+    }
+    let b_last_wire = sim.trace.wire[0].len();
+    phase_b.set(false);
+    // which packets travel in held-back data frames that follow a held-back sync frame naming a frame id?
+    let mut seen_sync = false;
+    let mut p_star: Option<u32> = None;
+    for w in sim.trace.wire[0][b_first_wire..b_last_wire].iter() {
+        match uflow::verif::Frame::read(&w.bytes) {
+            Some(uflow::verif::Frame::SyncFrame(sf)) if sf.next_frame_id.is_some() => seen_sync = true,
+            Some(uflow::verif::Frame::DataFrame(df)) if seen_sync => {
+                for dg in df.datagrams.iter() {
+                    if dg.data.len() >= 4 && p_star.is_none() {
+                        p_star = Some(u32::from_be_bytes([dg.data[0], dg.data[1], dg.data[2], dg.data[3]]));
+                    }
+                }
+            }
+            _ => {}
+        }
+    }
+    if seen_sync {
+        classes.push("long_haul_sync_with_frame_id_duplicated");
+    }
+    let p_star = p_star.unwrap_or(submitted.saturating_sub(10));
+    // C: carry on until the ids have come round: in the end the receiver's window base lies `delta` before p*
+    let target = (1u32 << 20) + p_star.saturating_sub(c.delta.min(3000) as u32);
+    let mut guard = 0;
+    while submitted < target && guard < 200_000 {
+        guard += 1;
+        let room = sim.hc[0].send_buffer_size() < 300_000;
+        let n = if room { (target - submitted).min(1000) } else { 0 };
+        tick(&mut sim, 2_000, n, &mut submitted);
+    }
+    // drain
+    let mut idle = 0;
+    let mut last = sim.trace.delivs[1].len();
+    while idle < 200 {
+        tick(&mut sim, 5_000, 0, &mut submitted);
+        if sim.trace.delivs[1].len() != last {
+            last = sim.trace.delivs[1].len();
+            idle = 0;
+        } else {
+            idle += 1;
+        }
+    }
+    if submitted >= target {
+        classes.push("long_haul_packet_ids_came_round");
+    }
+    // D: the long-delayed duplicates arrive
+    let released = sim.release_stash(0);
+    for _ in 0..100 {
+        tick(&mut sim, 5_000, 0, &mut submitted);
+    }
+    let trace = sim.finish();
+    if std::env::var_os("VERIF_DEBUG").is_some() {
+        eprintln!("long haul: submitted {submitted} target {target} delivered {} frames {} released {released} seen_sync {seen_sync} p* {p_star} end t={} us", trace.delivs[1].len(), trace.wire[0].len(), trace.end_us);
+    }
+    for s in 0..2 {
+        if let Err(v) = match_direction(&sc, &trace, s) {
+            return CaseResult { violation: Some(v), nontrivial: true, classes };
+        }
+    }
+    CaseResult::ok(released > 0 && submitted >= target && seen_sync, classes)
+}
+
 pub fn wrap_classes(sc: &PairScenario, trace: &Trace, classes: &mut Vec<&'static str>) {
     for d in 0..2 {
         let n_pkts = trace.subs[d].len() as u32;
@@ -28,17 +172,24 @@ pub fn wrap_classes(sc: &PairScenario, trace: &Trace, classes: &mut Vec<&'static
     }
 }
 
+fn pair_strategy(tier: Tier) -> BoxedStrategy<PairScenario> {
+        let p = GenParams { max_ticks: tier.pick(400, 1000), max_sends: tier.pick(6, 10), max_frags: tier.pick(4, 12), tail: false, ..GenParams::default() };
+        let bulk = bulk_scenario_strategy(tier.pick(120, 300), tier.pick(80, 250), true, false);
+        prop_oneof![5 => scenario_strategy(&p), 1 => bulk].boxed()
+}
+
 impl Check for C01 {
-    type Case = PairScenario;
+    type Case = Case;
 
     fn id(&self) -> &'static str {
         "C01"
     }
 
-    fn strategy(&self, tier: Tier) -> BoxedStrategy<PairScenario> {
-        let p = GenParams { max_ticks: tier.pick(400, 1000), max_sends: tier.pick(6, 10), max_frags: tier.pick(4, 12), tail: false, ..GenParams::default() };
-        let bulk = bulk_scenario_strategy(tier.pick(120, 300), tier.pick(80, 250), true, false);
-        prop_oneof![5 => scenario_strategy(&p), 1 => bulk].boxed()
+    fn strategy(&self, tier: Tier) -> BoxedStrategy<Case> {
+        let long_haul = (any::<u64>(), prop_oneof![Just(0u32), 0u32..=PKT_MASK], prop_oneof![Just(0u32), (0u32..100_000).prop_map(|d| u32::MAX - d), any::<u32>()], prop_oneof![Just(0u32), 0u32..20_000], 2_200u16..5_000, 0u16..3000, prop_oneof![Just(0u8), 0u8..50], 1u8..6)
+            .prop_map(|(seed, pkt_base, frm_base, latency_us, hold_ms, delta, reliable_pct, channels)| Case::LongHaul { long_haul: LongHaul { seed, pkt_base, frm_base, latency_us, hold_ms, delta, reliable_pct, channels } });
+        // (a long-haul case moves more than a million packets: seconds each, hence few)
+        prop_oneof![tier.pick(2000, 3000) => pair_strategy(tier).prop_map(Case::Pair), 1 => long_haul].boxed()
     }
 
     fn cases(&self, tier: Tier) -> u64 {
@@ -46,7 +197,7 @@ impl Check for C01 {
     }
 
     fn rule(&self) -> String {
-        "case = SimPair scenario (two HalfConnections under a virtual clock): window sizes 2^k, base ids biased to within 9000 of the 20-bit / 32-bit wrap, traffic in both directions on up to 64 channels in all four modes with sizes 0..several fragments, per-frame fates on both links (deliver with extra delay / drop / duplicate / 1-4 bit corruption, loss bursts), arbitrary tick cadence incl. dt=0, skipped steps and repeated flushes. Non-trivial = at least one frame dropped, duplicated, corrupted or overtaken AND at least two deliveries. Distinct = distinct serialised scenario.".into()
+        "two case kinds. LongHaul (a few per run): one connection carries 2^20 + k tiny packets (Unreliable with 0-50% Reliable, 1-5 channels) over a loss-free link, so that the 20-bit packet ids come round once; early on acknowledgements are lost for 2.2-5 s, and network duplicates of every frame the sender emits in that phase (data frames, and sync frames naming frame / packet ids) are delivered only at the very end, timed so that the packet ids they carry lie 0-3000 ahead of the receiver's window base again. Pair: SimPair scenario (two HalfConnections under a virtual clock): window sizes 2^k, base ids biased to within 9000 of the 20-bit / 32-bit wrap, traffic in both directions on up to 64 channels in all four modes with sizes 0..several fragments, per-frame fates on both links (deliver with extra delay / drop / duplicate / 1-4 bit corruption, loss bursts), arbitrary tick cadence incl. dt=0, skipped steps and repeated flushes. Non-trivial = at least one frame dropped, duplicated, corrupted or overtaken AND at least two deliveries. Distinct = distinct serialised scenario.".into()
     }
 
     fn assumptions(&self) -> Vec<String> {
@@ -56,7 +207,11 @@ impl Check for C01 {
         ]
     }
 
-    fn run(&self, sc: &PairScenario) -> CaseResult {
+    fn run(&self, case: &Case) -> CaseResult {
+        let sc = match case {
+            Case::Pair(sc) => sc,
+            Case::LongHaul { long_haul } => return run_long_haul(long_haul),
+        };
         let mut sc = sc.clone();
         sc.normalize();
         let trace = SimPair::run(&sc);
